@@ -11,6 +11,7 @@ from fractions import Fraction
 from typing import Any, Dict, List, Optional, Sequence, Tuple
 
 from rp2verif import odsread as O
+from rp2verif.models.lots import F, parse_ts
 
 
 def report_file(res: Dict[str, Any]) -> Optional[str]:
@@ -78,7 +79,8 @@ def independent_sums(specs: Sequence[Dict[str, Any]], D: Dict[str, Any]) -> Opti
     return out
 
 
-def check_in_out(res: Dict[str, Any], asset: str, problems: List[str], specs: Optional[Sequence[Dict[str, Any]]] = None) -> Dict[str, Dict[int, int]]:
+def check_in_out(res: Dict[str, Any], asset: str, problems: List[str], specs: Optional[Sequence[Dict[str, Any]]] = None,
+                 window: Optional[Tuple[Optional[date], Optional[date]]] = None) -> Dict[str, Dict[int, int]]:
     """In/Out/Intra tables == the transactions of the window, once, in time order, with running sums and sold %.
     Returns {table: {transaction row id: 1-based sheet row}} (used by the link oracle)."""
     f = report_file(res)
@@ -92,6 +94,39 @@ def check_in_out(res: Dict[str, Any], asset: str, problems: List[str], specs: Op
         return where_of
     yes, no = _tr(res, "YES"), _tr(res, "NO")
     ind = independent_sums(specs, D) if specs is not None else None
+    if specs is not None and window is not None:
+        # which transactions the window shows, from the input rows alone: those whose OWN calendar date lies in [from, to]
+        fd, td = window
+        for table, key in (("in", "in_rows"), ("out", "out_rows"), ("intra", "intra_rows")):
+            want_rows = sorted(s2["row"] for s2 in specs if s2["table"] == table and (fd is None or parse_ts(s2["timestamp"]).date() >= fd)
+                               and (td is None or parse_ts(s2["timestamp"]).date() <= td))
+            got_rows = sorted(r["row"] for r in D[key] if r["row"] > 0)
+            if got_rows != want_rows:
+                problems.append(f"{name} / {table.upper()} table: transactions of rows {got_rows} are in the computed window, rows dated inside the window are {want_rows}")
+    if specs is not None and window is not None:
+        fd, td = window
+        earn = ("AIRDROP", "HARDFORK", "INCOME", "INTEREST", "MINING", "STAKING", "WAGES")
+        want_ev = sorted({s2["row"] for s2 in specs
+                          if (s2["table"] == "out" or (s2["table"] == "in" and s2["transaction_type"].upper() in earn)
+                              or (s2["table"] == "intra" and F(s2["crypto_sent"]) != F(s2["crypto_received"])))
+                          and (fd is None or parse_ts(s2["timestamp"]).date() >= fd) and (td is None or parse_ts(s2["timestamp"]).date() <= td)})
+        got_ev = sorted({r["event"] for r in D["detail"] if r["event"] > 0})
+        if got_ev != want_ev:
+            problems.append(f"{name} / gain-loss fractions of event rows {got_ev} are in the computed window, taxable rows dated inside the window are {want_ev}")
+    if specs is not None and window is not None:
+        # the balances from a reference replay of the input rows (all history up to the to-date): acquired / sent / received / final
+        from rp2verif.models import accounts as MA
+
+        ref = MA.balances(specs, window[1])
+        gotb = {(b[0], b[1]): b for b in D["balances"]}
+        for acct_key in sorted(set(ref) | set(gotb)):
+            r, g = ref.get(acct_key), gotb.get(acct_key)
+            if r is None or g is None:
+                problems.append(f"{name} / balances: account {acct_key} {'missing from' if g is None else 'only in'} the computed balances")
+                continue
+            for pos, fig in ((3, "acquired"), (4, "sent"), (5, "received"), (2, "final")):
+                if g[pos] != r[fig]:
+                    problems.append(f"{name} / balances: account {acct_key} {fig} {g[pos]} != {r[fig]} from its transactions")
     if ind is not None:
         for w in D["in_rows"]:
             k = w["timestamp"].timestamp()
@@ -370,7 +405,7 @@ def check_c13(case: Dict[str, Any], res: Dict[str, Any]) -> List[str]:
             if lp:
                 problems.append(f"{sheet_name(res, '{} Tax', asset)} / Gain-Loss Detail fraction labels: {lp}")
     for asset in sorted(res["dumps"]):
-        check_in_out(res, asset, problems, case["assets"].get(asset))
+        check_in_out(res, asset, problems, case["assets"].get(asset), (case.get("from"), case.get("to")))
         check_tax_sheet(res, asset, problems)
     check_summary_and_legend(res, case, problems)
     return problems
